@@ -136,6 +136,9 @@ def run_case(ctx, i, rng):
                 except ValueError:
                     pass
     uniquify(n)
+    if Universe.of(n).size() > 6000:
+        ctx.count("discarded_too_large")        # (flatten under the invariant hooks is quadratic: keep the case inside its time slot)
+        return
     if i % 5 == 4 or i % 7 == 3:
         # names are free text: below an instance X two siblings may be called  b  and  X/b  (the flat names X/b and X/X/b differ)
         for l_ in n.libraries:
